@@ -309,6 +309,15 @@ def _run_layer_seq(seq):
             real = [(("regex" if f.identifier_is_regex else "name"), f.identifier) for f in arch[name]]
             if real != (items or []):
                 return False, f"after call {i}: architecture[{name!r}] = {real}, supplied {items}"
+        # the same listing through the public layer mapping of the accepted definition (what a layer rule evaluates against)
+        if not spec.pending():
+            lm = arch.layer_mapping
+            if list(lm.all_layers) != [n for n, _ in spec.layers]:
+                return False, f"after call {i}: layer_mapping.all_layers = {list(lm.all_layers)}, supplied {[n for n, _ in spec.layers]}"
+            for name, items in spec.layers:
+                real = [(("regex" if f.identifier_is_regex else "name"), f.identifier) for f in lm.get_module_filters(name)]
+                if real != (items or []):
+                    return False, f"after call {i}: layer_mapping.get_module_filters({name!r}) = {real}, supplied {items}"
     return True, "accepted; lists exactly what was supplied"
 
 
@@ -418,6 +427,10 @@ def bounded_layer_definitions(tier, seed):
     odd_ops = [("layer", "L1"), ("layer", "L2"), ("layer", "L1 "), ("cm", "M1 "), ("cm", ["M1 "]), ("cm", "M1"), ("cm", " M1"), ("cm", ["M1\n"]), ("cm", "m1"), ("cm", ["M1.x", "M1"])]
     for n in range(2, 5):
         seqs += [list(c) for c in itertools.product(odd_ops, repeat=n) if any(isinstance(a, str) and a != a.strip() or isinstance(a, list) and any(x != x.strip() for x in a) for _, a in c)][:: (1 if tier != "quick" else 2)]
+    # the same module twice inside ONE list, the same regex for two layers (both accepted by the builder: the listing must show them as supplied; seed C16o)
+    rep_ops = [("layer", "L1"), ("layer", "L2"), ("cm", ["M1", "M2", "M1"]), ("cm", ["M2", "M2"]), ("re", "R"), ("cm", "M2")]
+    for n in range(2, 5):
+        seqs += [list(c) for c in itertools.product(rep_ops, repeat=n)]
     for _ in range(3000 if tier == "quick" else 300000):
         seqs.append([rng.choice(LAYER_OPS) for _ in range(rng.randint(5, 8))])
     size = max(1, len(seqs) // 32)
